@@ -1,15 +1,14 @@
 (* C06/Truncate.v — Irc._truncateMsg and the takeMsg pipeline: line shape is
-   preserved, the untagged part is bounded in characters, and in bytes only
-   for ASCII text. *)
+   preserved and the untagged part is bounded to 512 bytes of UTF-8 (repaired C06.F19). *)
 From Coq Require Import List NArith ZArith Bool Arith Lia ZifyBool.
 Import ListNotations.
 Require Import Base.Wire Base.PyStr C05.Model C06.Model C06.Lemmas.
 Require gen.T06.
 Open Scope N_scope.
 
-(* sanity of the regenerated constants: keep + len(tail) <= limit = MAX_LINE_SIZE, tail = CR LF *)
+(* sanity of the regenerated constants: any one character fits in keep, keep + len(tail) <= limit = MAX_LINE_SIZE, tail = CR LF *)
 Definition trunc_table_ok : bool :=
-  (1 <=? gen.T06.TRUNC_KEEP)%nat
+  (4 <=? gen.T06.TRUNC_KEEP)%nat
   && (gen.T06.TRUNC_KEEP + 2 <=? gen.T06.TRUNC_LIMIT)%nat
   && (gen.T06.TRUNC_LIMIT =? gen.T06.MAX_LINE_SIZE)%nat
   && seq_eqb gen.T06.TRUNC_TAIL crlf.
@@ -18,7 +17,7 @@ Lemma trunc_table_ok_true : trunc_table_ok = true.
 Proof. vm_compute. reflexivity. Qed.
 
 Lemma trunc_consts :
-  (1 <= gen.T06.TRUNC_KEEP)%nat /\ (gen.T06.TRUNC_KEEP + 2 <= gen.T06.TRUNC_LIMIT)%nat
+  (4 <= gen.T06.TRUNC_KEEP)%nat /\ (gen.T06.TRUNC_KEEP + 2 <= gen.T06.TRUNC_LIMIT)%nat
   /\ gen.T06.TRUNC_LIMIT = gen.T06.MAX_LINE_SIZE /\ gen.T06.TRUNC_TAIL = crlf.
 Proof.
   pose proof trunc_table_ok_true as H. unfold trunc_table_ok in H.
@@ -71,17 +70,58 @@ Proof.
     inversion E; subst. cbn [app]. rewrite EA. reflexivity.
 Qed.
 
+(* ---- bytes ---- *)
+Lemma utf8_len_app a b : utf8_len (a ++ b) = (utf8_len a + utf8_len b)%nat.
+Proof. induction a as [|c a IH]; [reflexivity|]. cbn [app utf8_len]. rewrite IH. lia. Qed.
+
+Lemma utf8_len1_pos c : (1 <= utf8_len1 c <= 4)%nat.
+Proof. unfold utf8_len1. destruct (c <? 128), (c <? 2048), (c <? 65536); lia. Qed.
+
+Lemma length_le_utf8 s : (length s <= utf8_len s)%nat.
+Proof.
+  induction s as [|c s IH]; [cbn; lia|]. cbn [length utf8_len]. pose proof (utf8_len1_pos c). lia.
+Qed.
+
+(* take_bytes n s is a prefix of s that fits in n bytes *)
+Lemma take_bytes_prefix n s : exists q, s = take_bytes n s ++ q.
+Proof.
+  revert n. induction s as [|c s IH]; intro n; [exists []; reflexivity|].
+  cbn [take_bytes]. destruct (Nat.leb (utf8_len1 c) n).
+  - destruct (IH (n - utf8_len1 c)%nat) as [q Hq]. exists q. cbn [app]. rewrite <- Hq. reflexivity.
+  - exists (c :: s). reflexivity.
+Qed.
+
+Lemma take_bytes_len n s : (utf8_len (take_bytes n s) <= n)%nat.
+Proof.
+  revert n. induction s as [|c s IH]; intro n; [cbn; lia|].
+  cbn [take_bytes]. destruct (Nat.leb (utf8_len1 c) n) eqn:E; [|cbn; lia].
+  apply Nat.leb_le in E. cbn [utf8_len]. specialize (IH (n - utf8_len1 c)%nat). lia.
+Qed.
+
+Lemma take_bytes_head n c s : (utf8_len1 c <= n)%nat -> exists r', take_bytes n (c :: s) = c :: r'.
+Proof. intro H. cbn [take_bytes]. apply Nat.leb_le in H. rewrite H. eauto. Qed.
+
 (* ---- shape of truncate ---- *)
 Lemma truncate_shape l r :
   truncate l = Ok r ->
   exists tg rest, split_tagpart l = Ok (tg, rest) /\
-    ((Nat.ltb gen.T06.TRUNC_LIMIT (length rest) = false /\ r = l) \/
-     (Nat.ltb gen.T06.TRUNC_LIMIT (length rest) = true /\
-      r = tg ++ firstn gen.T06.TRUNC_KEEP rest ++ gen.T06.TRUNC_TAIL)).
+    ((Nat.ltb gen.T06.TRUNC_LIMIT (utf8_len rest) = false /\ r = l) \/
+     (Nat.ltb gen.T06.TRUNC_LIMIT (utf8_len rest) = true /\
+      r = tg ++ take_bytes gen.T06.TRUNC_KEEP rest ++ gen.T06.TRUNC_TAIL)).
 Proof.
   unfold truncate. destruct (split_tagpart l) as [[tg rest]|e] eqn:E; [|discriminate].
   cbn [bind fst snd]. exists tg, rest. split; [reflexivity|].
-  destruct (Nat.ltb gen.T06.TRUNC_LIMIT (length rest)); inversion H; auto.
+  destruct (existsb is_surrogate rest); [discriminate|].
+  destruct (Nat.ltb gen.T06.TRUNC_LIMIT (utf8_len rest)); inversion H; auto.
+Qed.
+
+(* the last character of a line is its LF: a suffix of at most one character weighs at most one byte *)
+Lemma short_suffix_light (p q body : str) :
+  p ++ q = body ++ [CR; LF] -> (length q <= 1)%nat -> (utf8_len q <= 1)%nat.
+Proof.
+  intros E Hq. destruct q as [|x [|y q']]; [cbn; lia| |cbn in Hq; lia].
+  change (body ++ [CR; LF]) with (body ++ [CR] ++ [LF]) in E. rewrite app_assoc in E.
+  apply app_inj_tail in E as [_ ->]. cbn. lia.
 Qed.
 
 (* truncation keeps a line a line *)
@@ -92,104 +132,70 @@ Proof.
   - destruct trunc_consts as [_ [HK [_ ->]]].
     apply split_tagpart_app in Es. apply Nat.ltb_lt in Hlt.
     remember gen.T06.TRUNC_KEEP as K. remember gen.T06.TRUNC_LIMIT as LIM.
-    exists (tg ++ firstn K rest). split; [rewrite <- app_assoc; reflexivity|].
-    assert (Elen : (length body + 2 = length tg + length rest)%nat).
-    { apply (f_equal (@length N)) in El. rewrite Es, !app_length in El. cbn in El. lia. }
-    assert (E : tg ++ firstn K rest = firstn (length tg + K) body).
-    { assert (E1 : firstn (length tg + K) l = tg ++ firstn K rest).
-      { rewrite Es. apply firstn_app_2. }
-      rewrite <- E1, El. rewrite firstn_app.
-      replace (length tg + K - length body)%nat with 0%nat by lia.
-      cbn [firstn]. rewrite app_nil_r. reflexivity. }
+    destruct (take_bytes_prefix K rest) as [q Hq]. pose proof (take_bytes_len K rest) as Hlen.
+    set (p := take_bytes K rest) in *.
+    exists (tg ++ p). split; [rewrite <- app_assoc; reflexivity|].
+    (* q, what is cut off, holds at least the final CR LF *)
+    assert (Hq2 : (2 <= length q)%nat).
+    { destruct (le_lt_dec 2 (length q)) as [|Hs]; [assumption|exfalso].
+      assert (E : (tg ++ p) ++ q = body ++ [CR; LF]).
+      { rewrite <- app_assoc, <- Hq, <- Es. exact El. }
+      pose proof (short_suffix_light _ _ _ E ltac:(lia)) as Hl.
+      rewrite Hq, utf8_len_app in Hlt. lia. }
+    assert (E : tg ++ p = firstn (length (tg ++ p)) body).
+    { assert (E1 : firstn (length (tg ++ p)) l = tg ++ p).
+      { rewrite Es, Hq, app_assoc. rewrite firstn_app, Nat.sub_diag, firstn_all. cbn [firstn].
+        apply app_nil_r. }
+      rewrite <- E1 at 1. rewrite El, firstn_app.
+      assert (Elen : (length body + 2 = length (tg ++ p) + length q)%nat).
+      { apply (f_equal (@length N)) in El. rewrite Es, Hq, app_assoc, !app_length in El.
+        rewrite app_length. cbn in El. lia. }
+      replace (length (tg ++ p) - length body)%nat with 0%nat by lia.
+      cbn [firstn]. apply app_nil_r. }
     rewrite E. apply valid_arg_firstn. exact Hb.
 Qed.
 
-(* the untagged part of the result has at most MAX_LINE_SIZE characters *)
-Lemma truncate_len_chars l r :
-  truncate l = Ok r -> (length (untagged r) <= gen.T06.MAX_LINE_SIZE)%nat.
+(* the untagged part of the result weighs at most MAX_LINE_SIZE bytes: the full statement
+   (it was refuted for multi-byte text before the repair of C06.F19) *)
+Lemma truncate_len_bytes l r :
+  truncate l = Ok r -> (utf8_len (untagged r) <= gen.T06.MAX_LINE_SIZE)%nat.
 Proof.
   intro H. destruct (truncate_shape _ _ H) as [tg [rest [Es [[Hlt ->]|[Hlt ->]]]]];
     destruct trunc_consts as [HK1 [HK [HL HT]]].
   - unfold untagged. rewrite Es. cbn [snd]. apply Nat.ltb_ge in Hlt. lia.
   - apply Nat.ltb_lt in Hlt.
-    assert (Er : split_tagpart (tg ++ firstn gen.T06.TRUNC_KEEP rest ++ gen.T06.TRUNC_TAIL)
-                 = Ok (tg, firstn gen.T06.TRUNC_KEEP rest ++ gen.T06.TRUNC_TAIL)).
+    assert (Er : split_tagpart (tg ++ take_bytes gen.T06.TRUNC_KEEP rest ++ gen.T06.TRUNC_TAIL)
+                 = Ok (tg, take_bytes gen.T06.TRUNC_KEEP rest ++ gen.T06.TRUNC_TAIL)).
     { apply (split_tagpart_replace l tg rest); [exact Es|].
       intros _. destruct rest as [|c rest']; [cbn in Hlt; lia|].
-      destruct gen.T06.TRUNC_KEEP as [|k]; [lia|]. cbn [firstn app]. eauto. }
-    unfold untagged. rewrite Er. cbn [snd]. rewrite app_length, firstn_length, HT. cbn [length crlf].
-    lia.
+      destruct (take_bytes_head gen.T06.TRUNC_KEEP c rest') as [r' Hr'].
+      { pose proof (utf8_len1_pos c). lia. }
+      rewrite Hr'. cbn [app]. eauto. }
+    unfold untagged. rewrite Er. cbn [snd]. rewrite utf8_len_app, HT.
+    pose proof (take_bytes_len gen.T06.TRUNC_KEEP rest). cbn [utf8_len crlf]. unfold utf8_len1. cbn. lia.
 Qed.
 
-(* ---- bytes ---- *)
-Lemma utf8_len_ascii s : ascii s = true -> utf8_len s = length s.
+(* hence also in characters *)
+Lemma truncate_len_chars l r :
+  truncate l = Ok r -> (length (untagged r) <= gen.T06.MAX_LINE_SIZE)%nat.
 Proof.
-  induction s as [|c s IH]; [reflexivity|]. cbn [ascii forallb]. intro H.
-  apply andb_true_iff in H as [Hc Hs]. cbn [utf8_len length]. unfold utf8_len1. rewrite Hc.
-  rewrite (IH Hs). reflexivity.
+  intro H. pose proof (truncate_len_bytes _ _ H). pose proof (length_le_utf8 (untagged r)). lia.
 Qed.
 
-Lemma utf8_len_bound s : (utf8_len s <= 4 * length s)%nat.
-Proof.
-  induction s as [|c s IH]; [cbn; lia|]. cbn [utf8_len length]. unfold utf8_len1.
-  destruct (c <? 128), (c <? 2048), (c <? 65536); lia.
-Qed.
-
-Lemma ascii_app a b : ascii (a ++ b) = ascii a && ascii b.
-Proof. apply forallb_app. Qed.
-
-Lemma ascii_firstn n s : ascii s = true -> ascii (firstn n s) = true.
-Proof.
-  intro H. rewrite <- (firstn_skipn n s), ascii_app in H. apply andb_true_iff in H as [H _]. exact H.
-Qed.
-
-Lemma untagged_suffix l : exists p, l = p ++ untagged l.
-Proof.
-  unfold untagged. destruct (split_tagpart l) as [[tg rest]|e] eqn:E.
-  - exists tg. cbn [snd]. apply split_tagpart_app. exact E.
-  - exists []. reflexivity.
-Qed.
-
-Lemma truncate_ascii l r : ascii l = true -> truncate l = Ok r -> ascii r = true.
-Proof.
-  intros Ha H. destruct (truncate_shape _ _ H) as [tg [rest [Es [[_ ->]|[_ ->]]]]]; [exact Ha|].
-  destruct trunc_consts as [_ [_ [_ ->]]].
-  apply split_tagpart_app in Es. rewrite Es, ascii_app in Ha. apply andb_true_iff in Ha as [H1 H2].
-  rewrite !ascii_app, H1, (ascii_firstn _ _ H2). reflexivity.
-Qed.
-
-(* on ASCII lines the byte bound holds *)
-Lemma truncate_len_bytes_ascii l r :
-  ascii l = true -> truncate l = Ok r -> (utf8_len (untagged r) <= gen.T06.MAX_LINE_SIZE)%nat.
-Proof.
-  intros Ha H. pose proof (truncate_ascii _ _ Ha H) as Hr.
-  destruct (untagged_suffix r) as [p Ep]. rewrite Ep, ascii_app in Hr.
-  apply andb_true_iff in Hr as [_ Hu]. rewrite (utf8_len_ascii _ Hu).
-  exact (truncate_len_chars _ _ H).
-Qed.
-
-(* in general only four times the limit *)
-Lemma truncate_len_bytes_any l r :
-  truncate l = Ok r -> (utf8_len (untagged r) <= 4 * gen.T06.MAX_LINE_SIZE)%nat.
-Proof.
-  intro H. pose proof (truncate_len_chars _ _ H). pose proof (utf8_len_bound (untagged r)). lia.
-Qed.
-
-(* witness: PRIVMSG #c :<600 x U+00E9> CR LF *)
+(* the old witness of C06.F19: PRIVMSG #c :<600 x U+00E9> CR LF now leaves as 512 bytes *)
 Definition witness_multibyte : str :=
   [80; 82; 73; 86; 77; 83; 71; 32; 35; 99; 32; 58] ++ repeat 233 600 ++ crlf.
 
-Lemma truncate_len_bytes_refuted :
-  exists l r, one_line l /\ ascii l = false /\ truncate l = Ok r /\ one_line r
-              /\ (length (untagged r) <= gen.T06.MAX_LINE_SIZE)%nat
-              /\ (gen.T06.MAX_LINE_SIZE < utf8_len (untagged r))%nat.
+Lemma truncate_multibyte_example :
+  exists r, truncate witness_multibyte = Ok r /\ one_lineb r = true /\ utf8_len (untagged r) = 512%nat.
+Proof. eexists. split; [vm_compute; reflexivity|]. split; vm_compute; reflexivity. Qed.
+
+(* the only failure of truncate on a well-formed tagged or untagged line is the encoder's *)
+Lemma truncate_surrogate_free l tg rest :
+  split_tagpart l = Ok (tg, rest) -> existsb is_surrogate rest = false -> exists r, truncate l = Ok r.
 Proof.
-  exists witness_multibyte. eexists.
-  split; [apply one_line_iff; vm_compute; reflexivity|].
-  split; [vm_compute; reflexivity|].
-  split; [vm_compute; reflexivity|].
-  split; [apply one_line_iff; vm_compute; reflexivity|].
-  split; apply Nat.leb_le; vm_compute; reflexivity.
+  intros Es Hs. unfold truncate. rewrite Es. cbn [bind fst snd]. rewrite Hs.
+  destruct (Nat.ltb gen.T06.TRUNC_LIMIT (utf8_len rest)); eauto.
 Qed.
 
 (* ---- takeMsg: label, filters, truncate ---- *)
@@ -230,37 +236,15 @@ Qed.
 
 Lemma take_line_ok lbl fs m l :
   wf_outb m = true -> label_ok lbl = true -> Forall filter_ok fs ->
-  take_line lbl fs m = Some (Ok l) ->
-  one_line l /\ (length (untagged l) <= gen.T06.MAX_LINE_SIZE)%nat.
+  take_line lbl fs m = Some l ->
+  one_line l /\ (utf8_len (untagged l) <= gen.T06.MAX_LINE_SIZE)%nat.
 Proof.
   intros Hw Hl Hf. unfold take_line.
   destruct (run_filters fs (add_label lbl m)) as [m'|] eqn:E; [|discriminate].
-  intro H. inversion H as [H1]. clear H.
+  destruct (truncate (serialize m')) as [l'|e] eqn:H1; [|discriminate].
+  intro H. inversion H; subst l'. clear H.
   pose proof (run_filters_wf _ _ _ Hf (add_label_wf _ _ Hl Hw) E) as Hw'.
   split.
   - exact (truncate_preserves _ _ (serialize_one_line _ Hw') H1).
-  - exact (truncate_len_chars _ _ H1).
-Qed.
-
-(* truncation cannot fail on a message that carries tags or whose line does not start with '@' *)
-Lemma truncate_total_tagged m :
-  m_tags m <> [] -> exists r, truncate (serialize m) = Ok r.
-Proof.
-  intro Ht. unfold serialize. destruct (m_tags m) as [|kv t] eqn:E; [congruence|].
-  unfold truncate, split_tagpart, format_server_tags. cbn [app]. rewrite N.eqb_refl.
-  set (j := join [SEMI] (map format_tag (kv :: t))).
-  destruct (split1 [SP] (AT :: j ++ SP :: serialize_body m)) as [[a b]|] eqn:E1.
-  - cbn [bind fst snd]. destruct (Nat.ltb gen.T06.TRUNC_LIMIT (length b)); eauto.
-  - exfalso. assert (Hc : contains [SP] (AT :: j ++ SP :: serialize_body m) = false)
-      by (unfold contains; rewrite E1; reflexivity).
-    clear E1. unfold contains in Hc.
-    destruct (split1 [SP] (AT :: j ++ SP :: serialize_body m)) eqn:E2; [discriminate|].
-    assert (Hin : In SP (AT :: j ++ SP :: serialize_body m)).
-    { right. apply in_or_app. right. left. reflexivity. }
-    clear -E2 Hin. revert E2 Hin. generalize (AT :: j ++ SP :: serialize_body m). intro s.
-    induction s as [|x s IH]; intros E2 Hin; [contradiction|].
-    cbn [split1 startswith] in E2. rewrite andb_true_r in E2.
-    destruct (N.eqb_spec SP x); [discriminate|].
-    destruct (split1 [SP] s) as [[? ?]|] eqn:E3; [discriminate|].
-    destruct Hin as [->|Hin]; [congruence|]. exact (IH eq_refl Hin).
+  - exact (truncate_len_bytes _ _ H1).
 Qed.
